@@ -87,7 +87,10 @@ def _(self: DirectedGraph, nodes: List[Int], prune_dead_end: Bool = True) -> Lis
     # pruning is complete: no surviving node that lost a successor is left without successors
     ensures(implies(prune_dead_end, forall(Int, lambda p: implies(
         is_node(self, p) and exists(Int, lambda c: old(is_edge(self, p, c)) and c in result), exists(Int, lambda c: is_edge(self, p, c))))))
+    # without pruning: exactly the requested nodes, nothing more
+    ensures(implies(not prune_dead_end, forall(result, lambda x: x in nodes)))
     # ---- outer loop (while stack) ----
+    invariant(0, implies(not prune_dead_end, forall(removed_nodes, lambda x: x in nodes) and forall(stack, lambda x: x in nodes)))
     invariant(0, wf(self))
     invariant(0, forall(Int, lambda u: is_node(self, u) == (old(is_node(self, u)) and u not in removed_nodes)))
     invariant(0, forall(Int, Int, lambda u, v: is_edge(self, u, v) == (old(is_edge(self, u, v)) and u not in removed_nodes and v not in removed_nodes)))
@@ -118,6 +121,8 @@ def _(self: DirectedGraph, node: Int, prune_dead_end: Bool = True) -> List[Int]:
     ensures(forall(Int, lambda u: is_node(self, u) == (old(is_node(self, u)) and u not in result)))
     ensures(forall(Int, Int, lambda u, v: is_edge(self, u, v) == (old(is_edge(self, u, v)) and u not in result and v not in result)))
     ensures(dupfree(result) and implies(old(is_node(self, node)), node in result))
+    # without pruning: the node itself and nothing more
+    ensures(implies(not prune_dead_end, forall(result, lambda x: x == node)))
     ensures(implies(prune_dead_end, forall(Int, lambda p: implies(
         is_node(self, p) and exists(Int, lambda c: old(is_edge(self, p, c)) and c in result), exists(Int, lambda c: is_edge(self, p, c))))))
 
